@@ -6,7 +6,7 @@ import numpy as np
 import pandas as pd
 
 from .. import attach, gen
-from ..runner import quiet
+from ..runner import quiet, guarded
 
 PROP = 'C19'
 FS, FR, NS = 100., (8., 12.), 160
@@ -119,8 +119,8 @@ def grid(sh):
         case = {'cell': 'grid', 'shape': list(shape), 'axis': axis, 'kwargs_kind': kind, 'expected': exp}
         fn = compute_features_2d if len(shape) == 1 else compute_features_3d
         name = 'grid-%s|sigs%s axis=%r kwargs=%s' % ('2d' if len(shape) == 1 else '3d', shape, axis, kind)
-        judge(sh, name, exp, lambda: fn(np.array(sigs, copy=True), FS, FR, compute_features_kwargs=copy.deepcopy(kw),
-                                        axis=axis, n_jobs=1), case)
+        guarded(sh, judge, sh, name, exp, lambda: fn(np.array(sigs, copy=True), FS, FR, compute_features_kwargs=copy.deepcopy(kw),
+                                                     axis=axis, n_jobs=1), case)
         if kind is not None and kind != 'dict':
             # the checker itself (list cells are decided there)
             judge(sh, 'checker-%s|sigs%s axis=%r kwargs=%s' % ('2d' if len(shape) == 1 else '3d', shape, axis, kind), exp,
@@ -305,7 +305,7 @@ def params(sh):
     for i, (name, exp, fn) in enumerate(P):
         if i % sh.nshards != sh.shard:
             continue
-        judge(sh, name, exp, fn, {'cell': 'param', 'probe': name, 'expected': exp})
+        guarded(sh, judge, sh, name, exp, fn, {'cell': 'param', 'probe': name, 'expected': exp})
         plt.close('all')
         sh.nontrivial.add('param:%d' % i)
         sh.note('param_class:' + name.split('|')[0])
